@@ -968,6 +968,10 @@ func (f *framer) parsePreparedMetadata() preparedMetadata {
 		pkeys := make([]int, pkeyCount)
 		for i := 0; i < pkeyCount; i++ {
 			pkeys[i] = int(f.readShort())
+			// a partition key index is the position of one of the bind markers described below
+			if pkeys[i] >= meta.colCount {
+				panic(fmt.Errorf("received partition key index %d for %d bind markers", pkeys[i], meta.colCount))
+			}
 		}
 		meta.pkeyColumns = pkeys
 	}
